@@ -5,3 +5,5 @@ package sim
 func (m *MonC13) snapshot(w *World) {}
 
 func (m *MonC13) heldThroughout(w *World, name, query string) bool { return false }
+
+func (m *MonC13) queryAnswerApplied(w *World, step int, op Op) {}
